@@ -144,7 +144,27 @@ class VerifyReport:
             "callees_by_contract": sorted(self.calls),
             "abstract_contracts_crossed": sorted(self.abstract),
             "backends": _backends(self.obligations),
+            "by_property": _by_property(self.obligations),
         }
+
+
+def _prop_of(label):
+    """obligations whose label starts with `Cnn:` (after the kind prefix) belong to that
+    property only; everything else serves every property the contract is listed for"""
+    import re
+    m = re.match(r"(?:post: |on-raise\[[A-Za-z]+\]: )?(C\d\d):", label)
+    return m.group(1) if m else None
+
+
+def _by_property(obls):
+    d = {}
+    for o in obls:
+        k = _prop_of(o.label) or "*"
+        t = d.setdefault(k, [0, 0])
+        t[0] += 1
+        if o.verdict == "unsat":
+            t[1] += 1
+    return d
 
 
 def _backends(obls):
